@@ -158,6 +158,50 @@ fn verif_data_sender_stop_sending() {
     core::mem::forget(ds);
 }
 
+// C12 / C10: when may the FIN be (re)sent on its own? A FIN that was never sent announces the
+// final size for the first time - it is NEW information and needs the permissions new data needs
+// (not flow-control blocked, transmission of new data allowed); only a FIN that was sent before and
+// declared lost may go out when the connection is restricted to retransmissions. In every other
+// sender state no separate FIN is written.
+#[cfg_attr(kani, kani::proof)]
+#[cfg_attr(kani, kani::unwind(2))]
+fn verif_data_sender_can_transmit_fin() {
+    let (fin, k, _) = any_fin();
+    let which: u8 = kani::any();
+    kani::assume(which < 3);
+    let state = match which {
+        0 => State::Sending,
+        1 => State::Finished,
+        _ => State::Finishing(fin),
+    };
+    let c: u8 = kani::any();
+    kani::assume(c < 4);
+    let constraint = match c {
+        0 => transmission::Constraint::None,
+        1 => transmission::Constraint::CongestionLimited,
+        2 => transmission::Constraint::RetransmissionOnly,
+        _ => transmission::Constraint::AmplificationLimited,
+    };
+    let is_blocked: bool = kani::any();
+    let can = state.can_transmit_fin(constraint, is_blocked);
+    let new_data_allowed = c == 0;
+    let retransmission_allowed = c == 0 || c == 2;
+    if which != 2 {
+        assert!(!can);
+    } else {
+        match k {
+            // Pending: never sent
+            0 => assert!(can == (new_data_allowed && !is_blocked)),
+            // InFlight / Acknowledged: nothing to send
+            1 | 3 => assert!(!can),
+            // Lost: a retransmission (its credit was acquired when it was first sent)
+            _ => assert!(can == retransmission_allowed),
+        }
+    }
+    kani::cover!(which == 2 && k == 0 && c == 2 && !can, "never-sent FIN held back while only retransmissions are allowed");
+    kani::cover!(which == 2 && k == 2 && c == 2 && can, "lost FIN retransmitted");
+}
+
 // ---- generated by tools/fixup.py: native replay entry ----
 #[cfg(not(kani))]
 #[test]
@@ -165,5 +209,6 @@ fn verif_replay() {
     kani::replay(&[
         ("verif_fin_state_step", verif_fin_state_step),
         ("verif_data_sender_stop_sending", verif_data_sender_stop_sending),
+        ("verif_data_sender_can_transmit_fin", verif_data_sender_can_transmit_fin),
     ]);
 }
